@@ -121,6 +121,11 @@ fn walk_items<'a>(items: &'a [syn::Item], out: &mut Vec<&'a syn::Item>) {
     for it in items {
         out.push(it);
         if let syn::Item::Mod(m) = it {
+            // test-only helper modules are not shipped
+            let test_only = m.attrs.iter().any(|a| a.path.is_ident("cfg") && a.tokens.to_string().replace(' ', "") == "(test)");
+            if test_only {
+                continue;
+            }
             if let Some((_, inner)) = &m.content {
                 walk_items(inner, out);
             }
